@@ -24,6 +24,9 @@ def check_C14(ctx, unit):
     ctx.rule("E.bucket-of-key", "every bucket index is hasher(key of the entry concerned) reduced modulo a capacity", 8)
     ctx.rule("E.size-accounting", "on every path the number of chain nodes constructed equals the number of _size "
              "increments and the number destroyed equals the number of decrements; rehash() creates, destroys and counts nothing", 5)
+    ctx.rule("E.bucket-agreement", "all members of hash_map apply the same explicit conversion to the hash value before reducing "
+             "it modulo the capacity (insert, operator[], get, find, remove and rehash must agree on the chain of a key for any "
+             "hash result type)", 8)
     ctx.rule("E.grow-before-link", "insert() tests _size >= _capacity and rehashes before it computes the bucket it links into", 2)
     for rec in recs_of(unit, MAP):
         fns = cls_fns(unit, rec["qn"])
@@ -47,6 +50,7 @@ def check_C14(ctx, unit):
                         break
         if not writes_cap:
             raise AnalysisBroken("anchor vanished: no member of %s writes _capacity" % rec["qn"])
+        narrowing = {}
         for f in fns:
             if f.kind == "ctor" and not any(n.kind == "ArraySubscriptExpr" for n in f.events()):
                 continue
@@ -56,6 +60,13 @@ def check_C14(ctx, unit):
                 m = _modulus(init)
                 if m:
                     idx[did] = m
+            # index variables that are declared with a placeholder and receive hasher(key) % capacity by assignment
+            for n in f.events():
+                if n.kind == "BinaryOperator" and n.op == "=":
+                    l = n.children[0].strip()
+                    m = _modulus(n.children[1])
+                    if m and l.kind == "DeclRefExpr" and l.get("local") and l.d["d"] not in idx:
+                        idx[l.d["d"]] = m
             # pairing of local tables with local capacities via the allocation size
             pair = {"this._table": "this._capacity"}
             for did, init in inits.items():
@@ -76,7 +87,10 @@ def check_C14(ctx, unit):
                 if n.kind == "DeclStmt":
                     for d in n.get("decls", []):
                         if d["d"] in idx:
-                            s = s | {d["d"]}
+                            if "init" in d and _modulus(f.node(d["init"])):
+                                s = s | {d["d"]}
+                            else:
+                                s = s - {d["d"]}        # declared with a placeholder value: not a bucket of the key yet
                 if n.is_call() and n.callee and n.callee["did"] in writes_cap:
                     s = frozenset()
                 if n.kind == "BinaryOperator" and n.op == "=":
@@ -101,8 +115,8 @@ def check_C14(ctx, unit):
                 k += 1
                 bad = n.id in stale_hits
                 ctx.inst("K.stale-index", "%s: use #%d of index %s" % (f.sig, k, i.n), not bad, n.loc,
-                         ("index %s was computed before a call that may change _capacity (rehash) and is used afterwards: "
-                          "the entry lands in / is looked up in the wrong chain" % i.n) if bad else
+                         ("on some path index %s is not hasher(key) %% capacity for the CURRENT capacity (computed before a call that may "
+                          "change _capacity, or still holding a placeholder): the entry lands in / is looked up in the wrong chain" % i.n) if bad else
                          "index still valid for the current capacity", f)
             # --- pairing
             k = 0
@@ -162,7 +176,15 @@ def check_C14(ctx, unit):
                             why = "hashes %s, not the key concerned" % canon(karg)
                     else:
                         why = "hash functor is %s" % (obj,)
-                ctx.inst("E.bucket-of-key", "%s: index #%d" % (f.sig, k), ok, inits[did].loc, why, f)
+                ctx.inst("E.bucket-of-key", "%s: index #%d" % (f.sig, k), ok, (inits[did].loc if did in inits else h.loc), why, f)
+            # --- how the hash is narrowed before the reduction (collected per class, compared below)
+            for did, (h, cap) in sorted(idx.items()):
+                x = h
+                # the explicit conversion written in the source (implicit promotions to the type of `%` do not count)
+                while x.kind in ("ImplicitCastExpr", "ParenExpr") and x.children:
+                    x = x.children[0]
+                conv = (x.get("t") or "?") if x.kind in ("CStyleCastExpr", "CXXStaticCastExpr", "CXXFunctionalCastExpr") else "<no conversion>"
+                narrowing.setdefault(conv, []).append((f, h))
             # --- size accounting
             def transfer2(n, s):
                 c, inc, d, dec = s
@@ -202,6 +224,18 @@ def check_C14(ctx, unit):
                     before = all(not f.reaches(x.id, n.id) for x in decl)
                     ok = ok or (grow and before and bool(decl))
                 ctx.inst("E.grow-before-link", f.sig, ok, f.loc, "rehash under _size >= _capacity precedes the bucket computation: %s" % ok, f)
+        # --- sibling agreement: all members narrow the hash the same way before reducing it (a member that reduces the
+        # full-width hash while the others truncate it first looks in a different chain for wide hash functions)
+        if not narrowing:
+            raise AnalysisBroken("anchor vanished: bucket computations of %s" % rec["qn"])
+        major = max(narrowing, key=lambda k: len(narrowing[k]))
+        ordn = {}
+        for conv, sites in sorted(narrowing.items()):
+            for (f, h) in sites:
+                ordn[f.sig] = ordn.get(f.sig, 0) + 1
+                ctx.inst("E.bucket-agreement", "%s: hash reduction #%d" % (f.sig, ordn[f.sig]), conv == major, h.loc,
+                         "hash converted by %s before `%% capacity`; the other members use %s (%d of %d sites)" % (
+                             conv, major, len(narrowing[major]), sum(len(v) for v in narrowing.values())), f)
 
 
 def _declref(fn, did):
@@ -233,6 +267,7 @@ class LinkSlots:
     def __init__(self, fn):
         self.fn = fn
         self.sites = {}      # node id -> (node, ok on every state, text)
+        self.stale_steps = {}    # node id -> (node, location) : successor loaded from a link that was rewritten
 
     def loc(self, n, st):
         """location designated by lvalue expression n (unstripped of LValueToRValue by caller)"""
@@ -259,7 +294,7 @@ class LinkSlots:
 
     @staticmethod
     def mentions(fact, v):
-        if fact[0] in ("null", "nn"):
+        if fact[0] in ("null", "nn", "dirty"):
             return fact[1] == v
         if fact[0] == "al":
             return v in fact[1:]
@@ -293,6 +328,9 @@ class LinkSlots:
                 new.add(("nn", x))
         else:
             L = self.loc(es, st)
+            if L is not None and L[0] == "next" and ("dirty", L[1], L[2]) in st:
+                # the walk continues through a link that this activation has already rewritten
+                self.stale_steps[e.id] = (e, L)
             if L is not None:
                 cands = [L]
                 if L[0] == "deref":
@@ -356,6 +394,11 @@ class LinkSlots:
                 self.sites[n.id] = (n, allok and ok, canon(lhs))
             # the store changes *L: forget what every local was known to equal, remember the stored local
             out = {f for f in st if f[0] != "eq"}
+            if L is not None and L[0] == "next":
+                out.add(("dirty", L[1], L[2]))
+                for f in st:
+                    if f[0] == "al" and L[1] in f[1:]:
+                        out.add(("dirty", f[1] if f[2] == L[1] else f[2], L[2]))
             y = _lk_var(rhs)
             if L is not None and y is not None:
                 out.add(("eq", y, L))
@@ -415,6 +458,8 @@ def check_trailing_pointer(ctx, unit, rule="H.chain-unlink"):
     must-analysis of which location each local was loaded from (LinkSlots): covers the predecessor-variable idiom,
     the pointer-to-link idiom and any loop form; a predecessor that does not follow the walk, a stale predecessor
     or a head/middle mix-up all leave the fact unproven."""
+    ctx.rule("H.walk-saved-successor", "hash_map: a chain walk never loads its next node from a link field that the same "
+             "activation has already overwritten (rehash saves the successor before relinking the node)", 1)
     ctx.rule(rule, "hash_map: a store `L = x->next` that unlinks x from its chain writes into the location L that holds x "
              "on every path (path-sensitive must-analysis of where each chain pointer was loaded from)", 2)
     for rec in recs_of(unit, MAP):
@@ -432,5 +477,14 @@ def check_trailing_pointer(ctx, unit, rule="H.chain-unlink"):
                                                 "(wrong or stale predecessor / slot)"), f)
         if cnt == 0:
             raise AnalysisBroken("anchor vanished: %s has no chain unlink store" % rec["qn"])
+        for f in cls_fns(unit, rec["qn"]):
+            ls = LinkSlots(f)
+            ls.run()
+            walks = [n for n in f.events() if n.kind in ("BinaryOperator", "DeclStmt")]
+            if f.name in ("rehash",) or ls.stale_steps:
+                bad = ["%s at %s" % (canon(n)[:60], n.loc) for n, _L in ls.stale_steps.values()]
+                ctx.inst("H.walk-saved-successor", f.sig, not bad, f.loc,
+                         ("the walk advances through a link rewritten earlier in the same step: " + "; ".join(bad)) if bad else
+                         "every chain walk advances through a link it has not rewritten (successor saved before relinking)", f)
 
 
